@@ -57,7 +57,10 @@ impl ScriptLine {
         ScriptLine { raw, newline: true, cls: "garbage", what: None }
     }
     pub fn print(what: PrintWhat, upper: bool) -> ScriptLine {
-        let sp = Spelling { case: if upper { Case::Upper } else { Case::Lower }, radix: Radix::Dec, wide: false, nl: false };
+        Self::print_radix(what, upper, Radix::Dec)
+    }
+    pub fn print_radix(what: PrintWhat, upper: bool, radix: Radix) -> ScriptLine {
+        let sp = Spelling { case: if upper { Case::Upper } else { Case::Lower }, radix, wide: false, nl: false };
         ScriptLine { raw: what.to_src(&sp), newline: true, cls: "print", what: Some(what) }
     }
     pub fn bytes(&self) -> Vec<u8> {
